@@ -484,6 +484,10 @@ class BuiltinMixin:
 
     def sort_items(self, items: list[V], key: Optional[V], reverse: bool, line: int) -> list[V]:
         """Stable insertion sort; forks on undecided comparisons."""
+        if getattr(self, "abstract_sort", False):
+            # the contract does not speak about the ORDER of this result (only about its elements)
+            self.ctx.assumptions_used.add("order of sorted() results not modelled in this contract (elements only)")
+            return list(items)
         keyed = [(self.call(key, [item], {}, line) if key is not None else item, item) for item in items]
         out: list[tuple[V, V]] = []
         for entry in keyed:
